@@ -23,6 +23,8 @@ def run(ctx):
             mtime = rng.choice([1_000_000_000_123_456_789, 4_000_000_000_000_000_001, 1, 1_700_000_000_000_000_000, 946684800_999_999_999, rng.randrange(10 ** 18),
                                 -1, -152_391_232_750_000_000, -86_400_000_000_000, -(10 ** 9) * rng.randrange(1, 10 ** 9) - rng.randrange(10 ** 9)])      # before 1970, with and without a sub-second part
             xattr = {f'user.k{j}': bytes([rng.randrange(256) for _ in range(rng.randint(0, 9))]) for j in range(rng.choice([0, 0, 1, 3]))}
+            if i in (1, 2, 3, 4):
+                xattr['user.reviewed'] = b''      # corpus: a flag-style attribute whose VALUE is empty is an attribute like any other
             uid, gid = rng.choice([(0, 0), (1000, 1000), (12345, 54321), (0, 7)])
             size = rng.choice([0, 10, 5000, 30000])
             flags = dict(ownership=rng.random() < 0.5 or i == 0, no_perms=rng.random() < 0.3 and i != 0, no_timestamps=rng.random() < 0.3, fsync=rng.random() < 0.2)
